@@ -123,13 +123,24 @@ func buildDB(c *Ctx, p *Prog) *dbModel {
 			if cc == nil {
 				return
 			}
-			switch calleeName(cc) {
+			name := calleeName(cc)
+			tmpl, varArg := ssa.Value(nil), ssa.Value(nil)
+			if name == "(*"+modPath+"/terminfo.Terminfo).TParm" && len(cc.Args) == 3 {
+				if textEmitters(p)[fn] {
+					return // the wrapper's own expansion: its call sites are the usage sites
+				}
+				tmpl, varArg = cc.Args[1], cc.Args[2]
+			} else if c, v, ok := textEmitterCall(p, in); ok {
+				tmpl, varArg = c, v
+				name = "(*" + modPath + "/terminfo.Terminfo).TParm"
+			}
+			switch name {
 			case "(*" + modPath + "/terminfo.Terminfo).TParm":
-				if len(cc.Args) != 3 {
+				if tmpl == nil {
 					return
 				}
 				m.tparmN++
-				n, vals, ok := varargCount(cc.Args[2])
+				n, vals, ok := varargCount(varArg)
 				if !ok {
 					m.unknown = append(m.unknown, p.pos(in.Pos())+": TParm with a non-literal argument list")
 					return
@@ -138,7 +149,7 @@ func buildDB(c *Ctx, p *Prog) *dbModel {
 				for i := range kinds {
 					kinds[i] = argKind(vals[i])
 				}
-				ref, _, isField := loadedField(cc.Args[1])
+				ref, _, isField := loadedField(tmpl)
 				switch {
 				case isField && ref.Owner == "terminfo.Terminfo":
 					setArity(m.arity, ref.Name, n, kinds, in.Pos())
@@ -147,10 +158,10 @@ func buildDB(c *Ctx, p *Prog) *dbModel {
 					setArity(m.arityG, ref.Name, n, kinds, in.Pos())
 					m.argKinds["t."+ref.Name] = kinds
 				default:
-					if _, isParam := cc.Args[1].(*ssa.Parameter); isParam && fn.Name() == "TParm" {
+					if _, isParam := tmpl.(*ssa.Parameter); isParam && fn.Name() == "TParm" {
 						return
 					}
-					m.unknown = append(m.unknown, p.pos(in.Pos())+": TParm on a string that is neither a Terminfo field nor a prepared screen string: "+valName(cc.Args[1]))
+					m.unknown = append(m.unknown, p.pos(in.Pos())+": TParm on a string that is neither a Terminfo field nor a prepared screen string: "+valName(tmpl))
 				}
 			}
 		})
